@@ -15,8 +15,12 @@ The MPI request is `pending` (operation not complete), `done` (operation complet
 or `null` (MPI_REQUEST_NULL after a successful MPI_Wait/MPI_Test).  The environment step `complete` is the
 only nondeterminism (the operation finishes); MPI_Wait blocks until it has happened.
 
-The model describes the tree with fixes/C19_mpifuture_void_get.patch applied (Buffer<void>::get clears
-valid_).
+`Dune::Future<T>` (future.hh), the type-erasing wrapper, is `erasedStep` on `Option σ`: the `unique_ptr` is null after
+default construction and after a move.  `Future<void>` around a future with a payload is `voidCastStep`.
+
+The model describes the tree with fixes/C19_mpifuture_void_get.patch (Buffer<void>::get clears valid_),
+fixes/C19_future_null_invalid.patch (Future<T>::wait/get/ready test the pointer and throw InvalidFutureException) and
+fixes/C19_mpifuture_bool_payload.patch (a bool payload is a payload, not the validity flag) applied.
 -/
 import DuneVerif.Common.Proto
 
@@ -224,6 +228,17 @@ def expectedObs (failed : Bool) : Act → Obs
   | .leave => .none
   | _ => if failed then .guardError else .none
 
+/-- rank `i` still holds an armed guard after `n` sections: its last call was the `reactivate()` checkpoint and the
+last section failed nowhere (otherwise `reactivate()` threw before re-arming) -/
+def endsArmed (members : List Nat) (script : Nat → Nat → Arm × Act) : Nat → Nat → Bool
+  | 0, _ => false
+  | n + 1, i => decide ((script i n).2 = Act.react) && !(members.any fun j => fails (script j n).2)
+
+/-- the case is well formed for this communicator: no member, or every member, still owes a section at the end
+(executable form of `EndsMatched`; the driver and the harness reject the other lines) -/
+def endsMatchedB (members : List Nat) (script : Nat → Nat → Arm × Act) (n : Nat) : Bool :=
+  (members.all fun i => !endsArmed members script n i) || (members.all fun i => endsArmed members script n i)
+
 /-! ## Part 2 — futures -/
 
 inductive Req where
@@ -415,6 +430,34 @@ def invalid : PseudoVoid := { valid := false }
 
 end PseudoVoid
 
+/-- void futures carry no payload: a successful `get` shows `ok` instead of the data -/
+def eraseObs : FObs → FObs
+  | .data _ => .ok
+  | o => o
+
+/-! ### `Dune::Future<T>` : type erasure (future.hh) -/
+
+/--
+```
+template<class T> class Future{
+  std::unique_ptr<FutureBase> _future;          // FutureModel<F> forwards wait/ready/valid/get to the F it holds
+  Future() = default;                            // null
+  void wait(){ if(!_future) DUNE_THROW(InvalidFutureException,…); _future->wait(); }      (get, ready alike)
+  bool valid() const { if(_future) return _future->valid(); return false; }
+};
+```
+`none` = null pointer (default constructed, or moved from); `some f` = holds the future `f`. -/
+def erasedStep {σ : Type} (inner : σ → FOp → FObs × σ) : Option σ → FOp → FObs × Option σ
+  | none, .valid => (.bool false, none)
+  | none, .complete => (.env, none)
+  | none, _ => (.errInvalid, none)
+  | some f, o => ((inner f o).1, some (inner f o).2)
+
+/-- `Future<void>` around a future with a payload: `virtual T get() override { return (T)_future.get(); }` with
+`T = void` discards the value -/
+def voidCastStep {σ : Type} (inner : σ → FOp → FObs × σ) : σ → FOp → FObs × σ :=
+  fun s o => (eraseObs (inner s o).1, (inner s o).2)
+
 /-- run a call history; returns the observations and the final state -/
 def runFut {σ : Type} (step : σ → FOp → FObs × σ) : σ → List FOp → List FObs × σ
   | s, [] => ([], s)
@@ -425,11 +468,6 @@ def runFut {σ : Type} (step : σ → FOp → FObs × σ) : σ → List FOp → 
 
 def trace {σ : Type} (step : σ → FOp → FObs × σ) (s : σ) (h : List FOp) : List FObs := (runFut step s h).1
 def final {σ : Type} (step : σ → FOp → FObs × σ) (s : σ) (h : List FOp) : σ := (runFut step s h).2
-
-/-- void futures carry no payload: a successful `get` shows `ok` instead of the data -/
-def eraseObs : FObs → FObs
-  | .data _ => .ok
-  | o => o
 
 /-! ### the collectives whose results the futures deliver (specification level, rank order) -/
 
